@@ -6,8 +6,8 @@ import (
 	"fmt"
 	"os"
 	"strconv"
-	"time"
 	"testing"
+	"time"
 )
 
 // TestCheck is the single entry point the driver (/verif/check) invokes:
@@ -69,6 +69,43 @@ func TestReplay(t *testing.T) {
 	fmt.Printf("REPLAY reproduced=%v events_identical=%v\n%s\n", rep, same, msg)
 	if !rep || !same {
 		t.Fail()
+	}
+}
+
+// TestProgram executes one program file and prints its event log and every
+// violation (development aid and corpus authoring): VERIF_PROGRAM=<path>
+// VERIF_PROP=Cnn VERIF_WORLD=w.
+func TestProgram(t *testing.T) {
+	path := os.Getenv("VERIF_PROGRAM")
+	if path == "" {
+		t.Skip("VERIF_PROGRAM not set")
+	}
+	defer CleanupScratch()
+	spec := Registry[os.Getenv("VERIF_PROP")+"/"+os.Getenv("VERIF_WORLD")]
+	if spec == nil {
+		t.Fatalf("TROUBLE: no such check")
+	}
+	b, err := os.ReadFile(path)
+	if err != nil {
+		t.Fatalf("TROUBLE: %v", err)
+	}
+	var rf struct {
+		Program json.RawMessage `json:"program"`
+	}
+	if err := json.Unmarshal(b, &rf); err == nil && len(rf.Program) > 0 {
+		b = rf.Program
+	}
+	p := &Program{}
+	if err := json.Unmarshal(b, p); err != nil {
+		t.Fatalf("TROUBLE: %v", err)
+	}
+	res := spec.Run(p)
+	for _, e := range res.Events {
+		fmt.Println(e)
+	}
+	fmt.Printf("trouble=%q nontrivial=%v probes=%v\n", res.Trouble, spec.NonTrivial == nil || spec.NonTrivial(p, res), res.Probes)
+	for _, v := range res.Violations {
+		fmt.Printf("VIOL %s props=%v sig=%s\n", v.String(), v.Props, v.Signature())
 	}
 }
 
